@@ -101,6 +101,16 @@ def run(ctx, tag, U, vars_, pre, bbs, op, posts, split=(0, 0), conf_every=1, det
             return
         ctx.count("paths")
         ctx.count(f"outcome:{out.kind}:{out.exc or ''}")
+        if stats.get("seen", 0) < 300 and len(o.stack) > stats.get("best", 0):
+            # keep the longest of the first paths as the sample written to the evidence
+            stats["seen"] = stats.get("seen", 0) + 1
+            try:
+                m0 = o.model()
+                stats["best"] = len(o.stack)
+                stats["sample"] = {"call": tag, "detail": detail, "decisions_on_this_path": [f"{t} = {v}" for t, v, _a, _f, _l in o.stack][:16],
+                                   "a_pre_state_of_this_path": spec_of(sg.real_state(sg.materialize(vars_, m0, mkbbs()))), "outcome": list(map(str, out.key()))}
+            except Exception:  # noqa
+                pass
         names = g.names()
         postA = acc_sym(g)
         for name, formula, sig, what in posts(preA, postA, out, names, c):
@@ -157,6 +167,8 @@ def run(ctx, tag, U, vars_, pre, bbs, op, posts, split=(0, 0), conf_every=1, det
                 ctx.harness_error(f"E2 stand-in does not conform to real networkx in {tag}", dict(detail or {}, pre_state=spec_of(sg.real_state(sg.materialize(vars_, m, mkbbs()))), symbolic=[a, spec_of(sym_state)], real=[b, spec_of(real_state)]))
 
     st = explore(pre, body, split_bits=split[0], split_index=split[1])
+    if stats.get("sample") and stats.get("best", 0) >= 6:
+        ctx.sample(stats["sample"], limit=2)
     ctx.count("decisions", st["decisions"])
     ctx.count("feasibility_checks", st["checks"])
     ctx.count("aborted_paths", st["aborted"])
